@@ -1,5 +1,5 @@
 """C15 - atomic_guarded and whole-object load/store behave as one atomic register."""
-from ..engine import CALLS, CTORS, HELD, handle_class, is_lock_carrier, path, unwrap
+from ..engine import CALLS, CTORS, HELD, callee_fq, handle_class, is_lock_carrier, path, unwrap
 from ..flow import TokenFlow, cond_atoms, path_positions, paths, TooManyPaths
 from ..guards import check_guarded_fields, field_refs
 from .. import common
@@ -35,6 +35,7 @@ def run(ctx):
     ctx.step(common.handle_deref_lifetime, ctx, "C15.lifetime", list(OPS), floor=4)
     ctx.step(onecs, ctx)
     ctx.step(flow_rules, ctx)
+    ctx.step(restore_rule, ctx)
     ctx.step(common.generic_witnesses, ctx, "C15.generic", ["C15"])
     ctx.step(common.witnesses, ctx, "C15.witness", ["C15"])
 
@@ -51,11 +52,18 @@ def onecs(ctx):
     for cls, names in OPS.items():
         found = 0
         for f in fb.functions(rec=cls):
-            if not (f.name in names or (cls.endswith("atomic_guarded") and _is_conv(f)) or
-                    (cls.endswith("ordered_guarded") and _is_conv(f))):
-                continue
             if f.kind in ("ctor", "dtor"):
                 continue
+            listed = (f.name in names or (cls.endswith("atomic_guarded") and _is_conv(f)) or
+                      (cls.endswith("ordered_guarded") and _is_conv(f)))
+            if not listed:
+                # a value operation added later (exchange, compare_exchange, update-from-value ...): a public member that
+                # reads or writes m_obj itself, hands out no handle and runs no user functor is a register operation too
+                if f.access != "public" or f.name in common.ACQ_METHODS or handle_class(f.ret) or \
+                        f.name in ("read", "modify", "modify_detach", "modify_async", "do_pending_writes", "do_pending_writes_internal") or \
+                        any(st["k"] in CALLS and common.is_user_call(f, st) for st in f.stmts.values()) or \
+                        not any(st["m"]["name"] == "m_obj" for st in field_refs(f, cls)):
+                    continue
             # operator= of the wrapper itself only (not handle move-assign)
             found += 1
             la = eng.locks(f)
@@ -142,6 +150,34 @@ def onecs(ctx):
                     if inner and gsum is None:
                         ctx.ob(rid, False, f.loc(st), "%s does not open a second critical section through %s()"
                                % (f.name, g.name), "callee acquires m_mutex again", fn=f.label, inst=f.qname)
+
+
+def restore_rule(ctx):
+    """once the stored value has been moved out of the register (`T previous(std::move(m_obj))`), the register holds a
+    value nobody stored until it is written again: that write must not be able to fail - it has to be a move assignment
+    from an object of type T, never a copy / converting assignment of caller-supplied data"""
+    rid = "C15.restore"
+    ctx.rule(rid, "after the stored value is moved out, the register is refilled by a move assignment", floor=0)
+    for cls in OPS:
+        for f in ctx.fb.functions(rec=cls):
+            if f.kind in ("ctor", "dtor"):
+                continue
+            outs = [st for st in f.stmts.values() if st["k"] == "CallExpr" and callee_fq(st) == "std::move" and st.get("vk") == "x"
+                    and st["args"] and path(f, f.s(st["args"][0])) == "this.m_obj"]
+            for mv in outs:
+                mp = f.pos_of(mv)
+                for st in f.stmts.values():
+                    if st["k"] == "CXXOperatorCallExpr" and st.get("op") == "=" and st["args"] and \
+                            path(f, f.s(st["args"][0])) == "this.m_obj":
+                        sp = f.pos_of(st)
+                        if mp is None or sp is None or not f.reach_avoiding(tuple(mp), tuple(sp), []):
+                            continue
+                        pt = ((st.get("callee") or {}).get("params") or [""])[0]
+                        ok = pt.rstrip().endswith("&&")
+                        ctx.ob(rid, ok, f.loc(st), "%s refills the moved-out register with a move assignment" % f.name,
+                               "" if ok else "m_obj was moved out at %s and is assigned through operator=(%s) here: if that assignment "
+                               "throws, the register keeps a moved-from value that was never stored" % (f.loc(mv), pt),
+                               fn=f.label, inst=f.qname)
 
 
 def flow_rules(ctx):
